@@ -755,6 +755,146 @@ func (g *pcsGen) applyDefaultsSkeleton(file string) ([][2]string, error) {
 	return out, nil
 }
 
+// stmtSkeleton lists every statement of a function with its nesting depth, in source order:
+// (kind@depth, text). Conditions, range expressions, loop bounds, declarations, assignments and
+// returns are kept verbatim (comments are not part of the syntax tree), so a changed comparison,
+// offset rule, loop bound or early return changes the table.
+func (g *pcsGen) stmtSkeleton(key string) ([][2]string, error) {
+	return g.stmtSkeletonOf(key, g.funcs[key])
+}
+
+// fileFuncs parses one more Go file and returns its functions keyed "Recv.Name" / "Name".
+func (g *pcsGen) fileFuncs(file string) (map[string]*ast.FuncDecl, error) {
+	f, err := parser.ParseFile(g.fset, file, nil, 0)
+	if err != nil {
+		return nil, err
+	}
+	out := map[string]*ast.FuncDecl{}
+	for _, d := range f.Decls {
+		if x, ok := d.(*ast.FuncDecl); ok {
+			key := x.Name.Name
+			if x.Recv != nil && len(x.Recv.List) == 1 {
+				key = deref(g.typeStr(x.Recv.List[0].Type, "")) + "." + key
+			}
+			out[key] = x
+		}
+	}
+	return out, nil
+}
+
+func (g *pcsGen) stmtSkeletonOf(key string, fd *ast.FuncDecl) ([][2]string, error) {
+	if fd == nil || fd.Body == nil {
+		return nil, fmt.Errorf("no body for %s", key)
+	}
+	var out [][2]string
+	add := func(kind string, d int, text string) { out = append(out, [2]string{fmt.Sprintf("%s@%d", kind, d), text}) }
+	var walk func(l []ast.Stmt, d int) error
+	walk = func(l []ast.Stmt, d int) error {
+		for _, s := range l {
+			switch x := s.(type) {
+			case *ast.BlockStmt:
+				if err := walk(x.List, d); err != nil {
+					return err
+				}
+			case *ast.IfStmt:
+				init := ""
+				if x.Init != nil {
+					init = g.text(x.Init) + "; "
+				}
+				add("if", d, init+g.text(x.Cond))
+				if err := walk(x.Body.List, d+1); err != nil {
+					return err
+				}
+				if x.Else != nil {
+					add("else", d, "")
+					if b, ok := x.Else.(*ast.BlockStmt); ok {
+						if err := walk(b.List, d+1); err != nil {
+							return err
+						}
+					} else if err := walk([]ast.Stmt{x.Else}, d+1); err != nil {
+						return err
+					}
+				}
+			case *ast.RangeStmt:
+				kv := ""
+				if x.Key != nil {
+					kv = g.text(x.Key)
+					if x.Value != nil {
+						kv += ", " + g.text(x.Value)
+					}
+					kv += " " + x.Tok.String() + " "
+				}
+				add("range", d, kv+"range "+g.text(x.X))
+				if err := walk(x.Body.List, d+1); err != nil {
+					return err
+				}
+			case *ast.ForStmt:
+				var parts []string
+				for _, n := range []ast.Node{x.Init, x.Cond, x.Post} {
+					if n == nil || n == ast.Node((*ast.ExprStmt)(nil)) {
+						parts = append(parts, "")
+						continue
+					}
+					parts = append(parts, g.text(n))
+				}
+				add("for", d, strings.Join(parts, "; "))
+				if err := walk(x.Body.List, d+1); err != nil {
+					return err
+				}
+			case *ast.SwitchStmt:
+				init, tag := "", ""
+				if x.Init != nil {
+					init = g.text(x.Init) + "; "
+				}
+				if x.Tag != nil {
+					tag = g.text(x.Tag)
+				}
+				add("switch", d, init+tag)
+				for _, cc := range x.Body.List {
+					cl := cc.(*ast.CaseClause)
+					if cl.List == nil {
+						add("default", d, "")
+					} else {
+						var ls []string
+						for _, e := range cl.List {
+							ls = append(ls, g.text(e))
+						}
+						add("case", d, strings.Join(ls, ", "))
+					}
+					if err := walk(cl.Body, d+1); err != nil {
+						return err
+					}
+				}
+			case *ast.AssignStmt:
+				add("assign", d, g.text(x))
+			case *ast.DeclStmt:
+				add("decl", d, g.text(x))
+			case *ast.ReturnStmt:
+				add("return", d, g.text(x))
+			case *ast.BranchStmt:
+				add("branch", d, g.text(x))
+			case *ast.ExprStmt:
+				add("expr", d, g.text(x))
+			case *ast.IncDecStmt:
+				add("incdec", d, g.text(x))
+			case *ast.EmptyStmt:
+			default:
+				return fmt.Errorf("%s: unsupported statement %T in skeleton", key, s)
+			}
+		}
+		return nil
+	}
+	add("func", 0, g.text(fd.Type))
+	if err := walk(fd.Body.List, 1); err != nil {
+		return nil, err
+	}
+	return out, nil
+}
+
+// pfSkeletonFuncs are the pure decision functions of tcb.go whose statement skeleton is pinned.
+var pfSkeletonFuncs = []string{"QuoteBundle.Verify", "TCBLevel.matches", "TCBInfo.getTCBLevel", "TCBInfo.validateTCBLevel", "TCBInfo.validateFMSPC",
+	"TCBInfo.validate", "QEIdentity.validate", "QEIdentity.verify"}
+
 func genPcsFacts(repo, out string, _ []string) error {
 	dir := filepath.Join(repo, "go", "common", "sgx", "pcs")
 	g := &pcsGen{fset: token.NewFileSet(), structs: map[string][]pfStructField{}, funcs: map[string]*ast.FuncDecl{},
@@ -881,6 +1021,54 @@ func genPcsFacts(repo, out string, _ []string) error {
 			sep = ""
 		}
 		b.WriteString(fmt.Sprintf("  (%s, %s)%s\n", leanStr(e[0]), leanStr(e[1]), sep))
+	}
+	b.WriteString("]\n\n")
+	// 4. statement skeletons of the TCB decision functions (go/common/sgx/pcs/tcb.go)
+	b.WriteString("/-- Statement skeletons of the TCB decision functions of tcb.go: (function, [(kind@depth, text)]), in source order. -/\n")
+	b.WriteString("def tcbSkeletons : List (String × List (String × String)) := [\n")
+	type skelT struct {
+		key string
+		fd  *ast.FuncDecl
+	}
+	var skels []skelT
+	for _, key := range pfSkeletonFuncs {
+		skels = append(skels, skelT{key, g.funcs[key]})
+	}
+	// node registration side: go/common/node/sgx.go and go/common/sgx/quote/quote.go
+	for _, ff := range []struct {
+		file string
+		keys []string
+	}{
+		{filepath.Join(repo, "go", "common", "node", "sgx.go"), []string{"SGXConstraints.ValidateBasic", "SGXAttestation.Verify", "SGXAttestation.verifyAttestationSignature"}},
+		{filepath.Join(repo, "go", "common", "sgx", "quote", "quote.go"), []string{"Quote.Verify", "Policy.Validate"}},
+	} {
+		fs, err := g.fileFuncs(ff.file)
+		if err != nil {
+			return err
+		}
+		for _, k := range ff.keys {
+			skels = append(skels, skelT{filepath.Base(filepath.Dir(ff.file)) + "/" + k, fs[k]})
+		}
+	}
+	for i, sk0 := range skels {
+		key := sk0.key
+		sk, err := g.stmtSkeletonOf(key, sk0.fd)
+		if err != nil {
+			return err
+		}
+		b.WriteString(fmt.Sprintf("  (%s, [\n", leanStr(key)))
+		for j, e := range sk {
+			sep := ","
+			if j == len(sk)-1 {
+				sep = ""
+			}
+			b.WriteString(fmt.Sprintf("    (%s, %s)%s\n", leanStr(e[0]), leanStr(e[1]), sep))
+		}
+		sep := ","
+		if i == len(skels)-1 {
+			sep = ""
+		}
+		b.WriteString("  ])" + sep + "\n")
 	}
 	b.WriteString("]\n\nend Generated.PcsFacts\n")
 	return os.WriteFile(out, []byte(b.String()), 0o644)
